@@ -204,3 +204,62 @@ func c15StatusAfterOddRegistrations(ev *vlib.Evidence, bin string, idx int) {
 		}
 	}
 }
+
+// c15SharedConnection: an agent that serves several nodes registers them all
+// over one connection (valid, if unusual); a client's peer request must still
+// be answered, and so must everything else afterwards.
+func c15SharedConnection(ev *vlib.Evidence, bin string, idx int) {
+	dir, _ := os.MkdirTemp("", "verif-c15h-")
+	defer os.RemoveAll(dir)
+	addr := fmt.Sprintf("127.0.0.1:%d", vlib.FreePort())
+	p, err := vlib.StartProc(filepath.Join(dir, "pool.log"), []string{"HOME=" + dir}, bin, "pool", "--store=memory", "--bind", addr)
+	if err != nil || !p.WaitListening(addr, 30*time.Second) {
+		if p != nil {
+			p.Kill(false)
+		}
+		ev.Inconclusive("pool-start")
+		return
+	}
+	defer p.Kill(false)
+	first := vlib.NewIdentity("c15shared-host", idx*4)
+	s, err := newBinSession(addr, first)
+	if err != nil {
+		ev.Inconclusive("ws-dial")
+		return
+	}
+	defer s.c.Close()
+	nIDs := 2 + idx%3
+	for i := 0; i < nIDs; i++ {
+		id := vlib.NewIdentity("c15shared-host", idx*4+i)
+		s.id = id // the same socket, the next identity
+		if _, e, _, _, ok := s.call("vipnode_connect", vlib.ConnectReq(true, "geth", "enode://"+id.NodeID+"@203.0.113.9:30303", "")); !ok || e != "" {
+			ev.Inconclusive("host-connect")
+			return
+		}
+	}
+	client := vlib.NewIdentity("c15shared-client", idx)
+	cs, err := newBinSession(addr, client)
+	if err != nil {
+		ev.Inconclusive("ws-dial")
+		return
+	}
+	defer cs.c.Close()
+	if _, e, _, _, ok := cs.call("vipnode_connect", vlib.ConnectReq(false, "geth", "", "")); !ok || e != "" {
+		ev.Inconclusive("client-connect")
+		return
+	}
+	ev.Case(fmt.Sprintf("shared-connection identities=%d idx=%d", nIDs, idx), true)
+	ev.Count("shared-connection-sessions", 1)
+	for round := 0; round < 2; round++ {
+		_, e, _, _, ok := cs.call("vipnode_peer", pool.PeerRequest{Num: nIDs + 2})
+		if ex, _ := p.Exited(); ex {
+			sig, excerpt := vlib.CrashSignature(filepath.Join(dir, "pool.log"))
+			ev.Violate("pool-process-died:"+sig, map[string]interface{}{"after": "peer request with several hosts on one connection", "log": truncStr(excerpt, 500)})
+			return
+		}
+		if !ok {
+			ev.Violate("request-without-reply:peer-request-with-hosts-sharing-a-connection", map[string]interface{}{"identities_on_the_connection": nIDs, "round": round, "note": e})
+			return
+		}
+	}
+}
